@@ -198,6 +198,8 @@ def apply_step(seq, cubes_src, step, rng, exact):
         exp = [(k, i) for k, c in enumerate(cubes) for i in range(c.data.shape[a])]
         if len(out.data) != len(exp):
             fails.append(f"explode returned {len(out.data)} cubes, expected {len(exp)} (every slice of every cube)")
+        if type(out) is not type(seq):
+            fails.append(f"explode_along_axis({ax}) returned a {type(out).__name__}, the sequence is a {type(seq).__name__}")
         else:
             for (k, i), got in zip(exp, out.data):
                 want = cubes[k].data[(slice(None),) * a + (i,)]
@@ -276,6 +278,8 @@ def apply_step(seq, cubes_src, step, rng, exact):
     else:
         if not isinstance(out, NDCubeSequence):
             fails.append(f"slice on the sequence axis returned {type(out).__name__}")
+        elif type(out) is not type(seq):
+            fails.append(f"the result is a {type(out).__name__}, the sequence is a {type(seq).__name__}")
         else:
             if len(out.data) != len(refs):
                 fails.append(f"{len(out.data)} cubes selected, Python list gives {len(refs)}")
